@@ -83,11 +83,11 @@ func genVP9Frame(t *core.Tape, mtu int) vp9Frame {
 			case 1:
 				return 1
 			case 2:
-				return 65535
+				return 65536 // frame_width_minus_1 = 0xFFFF
 			case 3:
 				return 256 * (1 + t.Intn(255))
 			}
-			return 1 + t.Intn(65535)
+			return 1 + t.Intn(65536)
 		}
 		f.width, f.height = dim(), dim()
 		w.put(uint64(f.width-1), 16)
